@@ -303,6 +303,50 @@ theorem body_spec (dbg : Bool) (s : Sched) (pre : List Ev) (k : Kern) (H : Nat) 
     omega
 
 
+/-- **Unwinding** (fix ecc12ae). A call that is left by a panic of user code after `m` entries of
+its batch were handed over (`H + m ≤ T`) has read exactly the positions `[H, H + m)`, each once,
+in order, and has stored the head `H + m`: the state is well-formed with `H := H + m`, so the next
+call (`C05_poll`) starts at `H + m` — nothing is handed over a second time, nothing is skipped. -/
+theorem unwind_spec (s : Sched) (pre : List Ev) (k : Kern) (H m : Nat) (h : Inv k H)
+    (hm : H + m ≤ k.T) :
+    Inv (bodyUnwind s pre (H % 4294967296) m k).1 (H + m) ∧
+    Ext k (bodyUnwind s pre (H % 4294967296) m k).1 ∧
+    (bodyUnwind s pre (H % 4294967296) m k).2 =
+      pre ++ readsFrom k.len k.base (bodyUnwind s pre (H % 4294967296) m k).1.pub H m ++
+        [.storeHead ((H + m) % 4294967296)] := by
+  have hple := h.pow.le
+  have hwin := h.win
+  have hhi := h.hi
+  have hlo := h.lo
+  have hw : wadd (H % 4294967296) m = (H + m) % 4294967296 := by unfold wadd; omega
+  have hl := loop_spec s m 4294967296 0 k H H h (Nat.le_refl _) hm (by omega)
+  obtain ⟨l1, l2, l3, l4⟩ := hl
+  simp only [bodyUnwind, hw]
+  generalize loopRun s ((H + m) % 4294967296) 4294967296 0 (H % 4294967296) k = r at *
+  obtain ⟨m1, m2⟩ := steps_inv l1 s.beforeStore
+  have hx := l2.trans m2
+  refine ⟨?_, ⟨hx.len, hx.base, hx.pub⟩, ?_⟩
+  · have hTle := hx.T_le
+    refine ⟨m1.pow, l3, ?_, ?_, ?_, ?_⟩
+    · show (Kern.steps _ _).base ≤ H + m
+      rw [hx.base]; omega
+    · show H + m ≤ (Kern.steps _ _).T
+      omega
+    · have := m1.win
+      show (Kern.steps _ _).T - (H + m) ≤ (Kern.steps _ _).len
+      omega
+    · intro j hj1 hj2
+      exact m1.slots j (by omega) hj2
+  · rw [l3, l4]
+    obtain ⟨suf, e⟩ := m2.pub
+    show _ = _ ++ readsFrom k.len k.base (Kern.steps _ _).pub H m ++ _
+    rw [e, readsFrom_ext _ _ _ _ _ _ hlo]
+    have := l2.T_le
+    have hb := l2.base
+    have e1 : r.1.T = r.1.base + r.1.pub.length := rfl
+    have e2 : k.T = k.base + k.pub.length := rfl
+    omega
+
 /-- The two shapes of the events before the loop. -/
 def IsPre (H T₁ : Nat) (pre : List Ev) : Prop :=
   pre = [.loadHead (H % 4294967296), .loadTail (T₁ % 4294967296)] ∨
@@ -372,12 +416,19 @@ theorem C05_poll (dbg : Bool) (k : Kern) (s : Sched) (H : Nat) (h : Inv k H) :
 inductive Round where
   | kernel (ms : List KMove)
   | poll (s : Sched)
+  /-- a `poll` call that is left by a panic of user code after (at most) `m` entries of the batch
+  it found were handed over (fix ecc12ae: the head is stored while unwinding) -/
+  | unwind (s : Sched) (m : Nat)
 
 def run (dbg : Bool) (k : Kern) : List Round → Kern × List Ev
   | [] => (k, [])
   | .kernel ms :: rs => run dbg (k.steps ms) rs
   | .poll s :: rs =>
     let r := pollRun dbg k s
+    let r' := run dbg r.1 rs
+    (r'.1, r.2 ++ r'.2)
+  | .unwind s m :: rs =>
+    let r := bodyUnwind s [.loadHead k.head, .loadTail k.tail] k.head (min m k.count) k
     let r' := run dbg r.1 rs
     (r'.1, r.2 ++ r'.2)
 
@@ -557,7 +608,8 @@ theorem entries_pre {H T₁ : Nat} {pre : List Ev} (hp : IsPre H T₁ pre) :
 
 /-- The full statement: for every ring size `2^e` (`e < 32`), all absolute
 counters (hence all 32-bit counter values, wrapped or not), all batchings of
-completions across successive calls, all kernel activity between and *during*
+completions across successive calls — calls that return and calls that are left by a panic
+of user code after any part of their batch —, all kernel activity between and *during*
 the calls and all mixes of operation and bookkeeping entries: the entries
 processed by the successive `poll` calls, concatenated, are exactly the
 kernel's publication sequence from the initial head on — each once, in order —
@@ -627,6 +679,102 @@ theorem C05_full : C05_full_statement := by
             · exact (entries_pre hp).2.2 hm
             · exact (readsFrom_clean _ _ _ _ _).2.1 hm
         · exact a6 hm
+    | unwind s m =>
+      have hc := h.count
+      have hhi := h.hi
+      have hm : H + min m k.count ≤ k.T := by rw [hc]; omega
+      have hpre : IsPre H k.T [Ev.loadHead k.head, Ev.loadTail k.tail] := by
+        left; rw [h.head]; rfl
+      obtain ⟨u1, u2, u3⟩ := unwind_spec s [.loadHead k.head, .loadTail k.tail] k H
+        (min m k.count) h hm
+      rw [← h.head] at u1 u2 u3
+      generalize hr : bodyUnwind s [.loadHead k.head, .loadTail k.tail] k.head (min m k.count) k = r
+        at u1 u2 u3
+      obtain ⟨H', a1, a2, a3, a4, a5, a6⟩ := ih r.1 (H + min m k.count) u1
+      simp only [run, hr]
+      rw [u2.base] at a4
+      refine ⟨H', by omega, a2, u2.trans a3, ?_, ?_, ?_⟩
+      · rw [entries_append, a4, u3, entries_append, entries_append, (entries_pre hpre).1]
+        have hlo := h.lo
+        have hT := u1.hi
+        have hTe : r.1.T = k.base + r.1.pub.length := by
+          show r.1.base + _ = _
+          rw [u2.base]
+        rw [readsFrom_entries _ _ _ _ _ hlo (by omega)]
+        obtain ⟨suf, es⟩ := a3.pub
+        have e1 : H + min m k.count - k.base = (H - k.base) + min m k.count := by omega
+        have e2 : H' - H = min m k.count + (H' - (H + min m k.count)) := by omega
+        have e0 := (take_drop_ext r.1.pub suf (H - k.base) (min m k.count) (by omega)).symm
+        rw [e0, ← es]
+        simp only [entries, List.nil_append, List.append_nil]
+        rw [e1, e2, take_drop_add]
+      · intro hmem
+        rcases List.mem_append.mp hmem with hmem | hmem
+        · rw [u3] at hmem
+          simp only [List.mem_append, List.mem_singleton, reduceCtorEq, or_false] at hmem
+          rcases hmem with hmem | hmem
+          · exact (entries_pre hpre).2.1 hmem
+          · exact (readsFrom_clean _ _ _ _ _).1 hmem
+        · exact a5 hmem
+      · intro hmem
+        rcases List.mem_append.mp hmem with hmem | hmem
+        · rw [u3] at hmem
+          simp only [List.mem_append, List.mem_singleton, reduceCtorEq, or_false] at hmem
+          rcases hmem with hmem | hmem
+          · exact (entries_pre hpre).2.2 hmem
+          · exact (readsFrom_clean _ _ _ _ _).2.1 hmem
+        · exact a6 hmem
+
+/-- **A call left by a panic** (fix ecc12ae), the property-level form of `unwind_spec`: exactly the
+entries at positions `[H, H + m)` were handed over, each once, in order, and the stored head is
+`H + m`; `C05_full` / `C05_delivery` therefore hold for runs that contain such calls
+(`Round.unwind`). -/
+theorem C05_unwinding_poll (s : Sched) (k : Kern) (H m : Nat) (h : Inv k H) (hm : H + m ≤ k.T) :
+    let r := bodyUnwind s [.loadHead k.head, .loadTail k.tail] k.head m k
+    Inv r.1 (H + m) ∧ Ext k r.1 ∧ r.1.head = (H + m) % 4294967296 ∧
+    entries r.2 = (r.1.pub.drop (H - k.base)).take m := by
+  have hpre : IsPre H k.T [Ev.loadHead k.head, Ev.loadTail k.tail] := by
+    left; rw [h.head]; rfl
+  obtain ⟨u1, u2, u3⟩ := unwind_spec s [.loadHead k.head, .loadTail k.tail] k H m h hm
+  rw [← h.head] at u1 u2 u3
+  refine ⟨u1, u2, u1.head, ?_⟩
+  have hlo := h.lo
+  have hTe : (bodyUnwind s [.loadHead k.head, .loadTail k.tail] k.head m k).1.T =
+      k.base + (bodyUnwind s [.loadHead k.head, .loadTail k.tail] k.head m k).1.pub.length := by
+    show (bodyUnwind s _ k.head m k).1.base + _ = _
+    rw [u2.base]
+  have hT := u1.hi
+  rw [u3, entries_append, entries_append, (entries_pre hpre).1,
+    readsFrom_entries _ _ _ _ _ hlo (by omega)]
+  simp [entries]
+
+/-- Why the head has to be stored while unwinding (the defect repaired by ecc12ae): a call that
+leaves the head word at `H` although it handed the entry at position `H` to its operation is
+followed by a call whose FIRST processed entry is that same entry. (Any well-formed state with
+something published: `C05_poll` starts reading at the stored head.) -/
+theorem C05_unwind_without_store_rereads (dbg : Bool) (k : Kern) (s : Sched) (H : Nat)
+    (h : Inv k H) (hne : H < k.T) :
+    (entries (pollRun dbg k s).2).head? = (pollRun dbg k s).1.pub[H - k.base]? ∧
+    (pollRun dbg k s).1.pub[H - k.base]? = k.pub[H - k.base]? := by
+  obtain ⟨T₁, h1, h2, h3, h4⟩ := C05_poll dbg k s H h
+  have hlo := h.lo
+  have hlt : H - k.base < k.pub.length := by
+    have : k.T = k.base + k.pub.length := rfl
+    omega
+  refine ⟨?_, h3.get hlt⟩
+  rcases h4 with ⟨_, _, _, e⟩ | ⟨hT, pre, hp, e⟩
+  · omega
+  · rw [e, entries_append, entries_append, (entries_pre hp).1]
+    have hTe : (pollRun dbg k s).1.T = k.base + (pollRun dbg k s).1.pub.length := by
+      show (pollRun dbg k s).1.base + _ = _
+      rw [h3.base]
+    have hT2 := h2.hi
+    rw [readsFrom_entries _ _ _ _ _ hlo (by omega)]
+    simp only [entries, List.nil_append, List.append_nil]
+    obtain ⟨n, hn⟩ : ∃ n, T₁ - H = n + 1 := ⟨T₁ - H - 1, by omega⟩
+    have hlt2 : H - k.base < (pollRun dbg k s).1.pub.length := by omega
+    rw [hn, List.drop_eq_getElem_cons hlt2, List.take_succ_cons, List.head?_cons,
+      List.getElem?_eq_getElem hlt2]
 
 /-- What the operations receive over a whole run: exactly the operation
 entries of the publication sequence, each once, in order, each addressed to the
